@@ -327,3 +327,18 @@ def c19(ctx):
     r = hgen(ctx, "C19", ctx.path("rand.ndjson"))
     judge(ctx, "C19", vf.cat(ctx.path("vec.ndjson"), g1, g2, r), what="OrderDSCForBuild vs graph model", chunk=1500)
     ctx.exhaustive = True
+
+
+# =========================================================================== struct marshalling (C09)
+@prop("C09", "C09Trace",
+      "Probe struct types P1-P5 cover every supported kind x tag (string, renamed, required, skipped, multiline; int, uint, "
+      "bool; lists with delimiters/strip incl. required and int lists; version, dependency, arch, arch list, checksum list; "
+      "embedded Paragraph). TLC enumerates all values over small per-field domains (835 values), all interleavings of known "
+      "and unknown fields (single-line, multi-line, empty) for the pass-through law, and documents with/without required "
+      "fields; the probe types' reflected descriptors are checked against the specification's table.")
+def c09(ctx):
+    g1 = gen(ctx, "StructGen.tla", "StructGen.cfg", ctx.path("st.ndjson"), what="probe values, documents")
+    judge(ctx, "C09", g1, what="Marshal/Unmarshal vs descriptor algebra")
+    ctx.exhaustive = True
+    ctx.assumptions += ["'optional zero fields are omitted' is read as 'fields whose text is empty': int 0 / bool false are written "
+                        "as 0 / no by design", "pointer fields are not among the supported kinds"]
